@@ -25,6 +25,7 @@ func runC28(c *Ctx) {
 	w := c.W
 	pkg := "z/tls"
 	c28Extras(c)
+	c28Extras3(c)
 	if w.Pkg(pkg) == nil {
 		c.Undecided("R-OWN", pkg, "package", "-", "not loaded")
 		return
